@@ -100,4 +100,23 @@ def clusterAddRandomUsers (cells : List (CellGeom α)) (ids : Option (List Nat))
   clusterPlace cells (mkReqs ids' nums colors ratios) us
 end
 
+
+section forms
+variable {α : Type} [Add α] [Sub α] [Mul α] [Div α] [NatCast α] [LT α] [DecidableLT α] [LE α] [DecidableLE α]
+
+/-- `CellBase.add_user(Node(rel), relative_pos_bool=True)`: the relative position is scaled by `scale`
+    (the radius; half a side for `CellSquare`) and moved to the cell, then added like an absolute one -/
+def addUserRel (inside : Pt α → Bool) (pos : Pt α) (scale : α) (rel : Pt α) : Except PyErr (Pt α) :=
+  addUser inside (padd (smul scale rel) pos)
+
+/-- `get_border_point(angle, ratio)` with the documented default `ratio=None` meaning the border itself -/
+def borderPointOpt (pos : Pt α) (verts : List (Pt α)) (d : Pt α) (ratio : Option α) : Except PyErr (Pt α) :=
+  borderPoint pos verts d (match ratio with | none => ((1 : Nat) : α) | some r => r)
+
+/-- users of a cluster in the order `get_all_users` / the distance matrix use: cell by cell, inside a
+    cell in the order they were added; `adds` is the global sequence of additions `(cell index, position)` -/
+def usersByCell (n : Nat) (adds : List (Nat × Pt α)) : List (Pt α) :=
+  (List.range n).flatMap (fun i => (adds.filter (fun a => a.1 == i)).map (·.2))
+end forms
+
 end PyPhysim.C19
